@@ -31,3 +31,31 @@ Definition set (k : key) (v : bytes) (m : fmap) : fmap := (k, v) :: del k m.
 
 (* the bytes [off, off+len) of a file *)
 Definition slice (off len : nat) (d : bytes) : bytes := firstn len (skipn off d).
+
+(* The generic readers (and their variants) through which every command reads snapshot and
+   index files; their access patterns are regenerated from the source into Extracted.v
+   (rdr_lists_first, rdr_reads). *)
+Inductive rdr :=
+| StreamAll | StreamList | GetFile
+| FindStartsWith | FindIdsFull | FindIdsPrefix
+| SnapIterAll | SnapLatest
+| SnapFromStrLatest | SnapFromStrPrefix | SnapFromStrId
+| SnapFromStrsLatest | SnapFromStrsPrefix | SnapFromStrsIdsOnly
+| SnapUpdateFromIdsFull | SnapUpdateFromIdsPrefix | SnapUpdateFromBackend
+| IndexNew | IndexOnlyFullTrees
+| CatFileFull | CatFilePrefix.
+
+Scheme Equality for rdr.
+
+Definition all_rdr : list rdr :=
+  [StreamAll; StreamList; GetFile; FindStartsWith; FindIdsFull; FindIdsPrefix; SnapIterAll; SnapLatest;
+   SnapFromStrLatest; SnapFromStrPrefix; SnapFromStrId; SnapFromStrsLatest; SnapFromStrsPrefix;
+   SnapFromStrsIdsOnly; SnapUpdateFromIdsFull; SnapUpdateFromIdsPrefix; SnapUpdateFromBackend;
+   IndexNew; IndexOnlyFullTrees; CatFileFull; CatFilePrefix].
+
+(* the commands of the property (and their variants by how snapshots are named); the readers
+   each of them uses are regenerated from the source into Extracted.cmd_readers *)
+Inductive cmd :=
+| CmdBackup | CmdBackupParentPrefix | CmdBackupParentLatest | CmdBackupParentFullIds
+| CmdForgetAll | CmdForgetPrefix | CmdForgetFullIds
+| CmdPrune | CmdCheck.
